@@ -23,7 +23,9 @@ Spaces (see DESIGN.md C07):
   python, thorough       the same for all N 1..64 and the whole MAIO set (= the full unreduced space)
   python HSN 0           all MAIO x N x boundary FN set (three ways)
   transceiver            N 1..64 x HSN {0,1,5,37,63} x MAIO {0,N-1} x one superframe + boundaries,
-                         rx and tx of the selected pair
+                         rx and tx of the selected pair; SETFH repeated on an already hopping transceiver
+                         (every change of the bit length of N, both directions, HSN 0 / != 0) and
+                         SETFH / POWEROFF / SETFH, then a complete T2 x T3 cycle + every T1R
 """
 import array
 import importlib
@@ -44,7 +46,8 @@ FULL_FNS = list(range(64 * SUPER)) + list(range(HYPER - SUPER, HYPER))
 TRX_HSN = (0, 1, 5, 37, 63)
 # order-independence ("history") pass: FN fixed in the outer loop, every configuration in the inner loops
 HIST_FIX = [0, 1, 2, 25, 26, 50, 51, 52, 1325, 1326, 1327, 84863, 84864, 84865, 65535, 65536, 65537, 1048575, 1048576,
-            HYPER // 2, HYPER - 1327, HYPER - 1326, HYPER - 2, HYPER - 1]
+            HYPER // 2, HYPER - 1327, HYPER - 1326, HYPER - 2, HYPER - 1] \
+    + [t1 * SUPER + r for t1 in (64, 65, 127, 128, 192, 256, 512, 1024, 1536) for r in (0, 700, 1325)]   # T1 beyond the T1R cycle
 HIST_FNS = HIST_FIX + [(i * 283 + 17) % (64 * SUPER) for i in range(300)]      # the driver's list (`hist`)
 HIST_FNS_PY = HIST_FIX + [(i * 283 + 17) % (64 * SUPER) for i in range(0, 300, 3)]
 HIST_BASES = (512, 700)
@@ -484,6 +487,94 @@ def _trx_one(trx, hsn, maio, n, fns, res):
                                 % (hsn, maio, n, fn, rx, tx, want, ma[want], raw)))
 
 
+# ---- transceiver: SETFH repeated on a transceiver that is already hopping ---------------------
+RE_N = (1, 2, 3, 5, 12, 21, 37, 64)            # every bit length 1..7 (2 and 3 share one)
+RE_PAIRS = [(a, b) for a in RE_N for b in RE_N]  # every change of bit length in both directions, and none
+RE_HSN = ((17, 0), (17, 5), (0, 63), (63, 63))   # (HSN of the first, HSN of the second SETFH)
+
+
+def _pairs2(n):
+    """other MA contents than _pairs(): a stale allocation is visible"""
+    return [(925200 + 200 * (ma_val((3 * i + 1) % 64) - 512), 880200 + 200 * (ma_val((7 * i + 5) % 64) - 512)) for i in range(n)]
+
+
+def _re_fns():
+    f = list(range(29 * SUPER, 30 * SUPER))                                  # one complete T2 x T3 cycle
+    f += [t1 * SUPER + (t1 * 37) % SUPER for t1 in range(64)]                 # every T1R
+    f += [HYPER - 2, HYPER - 1, 0, 1, 1325, 1326, 64 * SUPER, 127 * SUPER + 5, 1024 * SUPER + 700]
+    return f
+
+
+def _setfh(trx, hsn, maio, pk):
+    req = ["SETFH", str(hsn), str(maio)]
+    for rx, tx in pk:
+        req += [str(rx), str(tx)]
+    return trx.ctrl_if.parse_cmd(req)
+
+
+def _re_scenario(transceiver, n1, n2, hsn1, hsn2, poweroff, res):
+    """SETFH #1, a few lookups, [POWEROFF,] SETFH #2 on the same transceiver, then a complete FN set"""
+    from vlib import world
+    world.new_fabric()
+    trx = transceiver.Transceiver("127.0.0.1", "127.0.0.1", 5700)
+    maio1, maio2 = min(2, n1 - 1), min(1, n2 - 1)
+    pk1, pk2 = _pairs(n1), _pairs2(n2)
+    ma1 = [(rx * 1000, tx * 1000) for rx, tx in pk1]
+    ma2 = [(rx * 1000, tx * 1000) for rx, tx in pk2]
+    case = {"impl": "transceiver-resetfh", "n1": n1, "n2": n2, "hsn1": hsn1, "hsn2": hsn2, "poweroff": poweroff}
+    what = "SETFH hsn=%d maio=%d N=%d%s, SETFH hsn=%d maio=%d N=%d on the same transceiver" % (
+        hsn1, maio1, n1, ", POWEROFF" if poweroff else " (no POWEROFF)", hsn2, maio2, n2)
+    kind = "setfh-poweroff-setfh" if poweroff else "re-setfh"
+    cls = "nbin=%d->%d:hsn%s" % (n1.bit_length(), n2.bit_length(), "=0" if hsn2 == 0 else "!=0")
+    res["cov"]["transceiver_resetfh_scenarios"] += 1
+    try:
+        rc1 = _setfh(trx, hsn1, maio1, pk1)
+        for fn in (0, 1, 51, 1326, 84863):
+            want = hopping.mai(hsn1, maio1, n1, fn)
+            got = (trx.get_rx_freq(fn), trx.get_tx_freq(fn))
+            res["cov"]["transceiver_resetfh_lookups"] += 2
+            if got != ma1[want]:
+                res["viol"].append((_pykey(hsn1, n1), dict(case, fn=fn),
+                                    "%s: after the first SETFH get_rx/tx_freq(%d) = %r, TS 45.002 6.2.3 gives MAI=%d -> %r" % (what, fn, got, want, ma1[want])))
+                return
+        rc0 = trx.ctrl_if.parse_cmd(["POWEROFF"]) if poweroff else 0
+        rc2 = _setfh(trx, hsn2, maio2, pk2)
+    except Exception as e:
+        res["viol"].append(("C07:transceiver:%s:exception" % kind, case, "%s raised %r" % (what, e)))
+        return
+    if rc1 != 0 or rc0 != 0 or rc2 != 0 or trx.fh is None:
+        res["viol"].append(("C07:transceiver:%s:rejected" % kind, case,
+                            "%s -> rc %r / %r / %r, hopping %s" % (what, rc1, rc0, rc2, "on" if trx.fh else "off")))
+        return
+    for fn in _re_fns():
+        want = hopping.mai(hsn2, maio2, n2, fn)
+        try:
+            got = (trx.get_rx_freq(fn), trx.get_tx_freq(fn))
+        except Exception as e:
+            got = repr(e)
+        res["cov"]["transceiver_resetfh_lookups"] += 2
+        if got != ma2[want]:
+            idx = ma2.index(got) if got in ma2 else ("first allocation[%d]" % ma1.index(got) if got in ma1 else None)
+            res["viol"].append(("C07:transceiver:%s:%s" % (kind, cls), dict(case, fn=fn),
+                                "%s: get_rx_freq/get_tx_freq(fn=%d) = %r (MA index %r); the second SETFH alone determines the sequence: "
+                                "TS 45.002 6.2.3 gives MAI=%d -> %r" % (what, fn, got, idx, want, ma2[want])))
+            return
+
+
+def _py_trx_re(chunk):
+    from vlib import world
+    world.install()
+    _toolkit(fresh=True)
+    import transceiver
+    importlib.reload(transceiver)
+    res = {"cov": {"transceiver_resetfh_scenarios": 0, "transceiver_resetfh_lookups": 0}, "viol": []}
+    for n1, n2 in chunk:
+        for hsn1, hsn2 in RE_HSN:
+            _re_scenario(transceiver, n1, n2, hsn1, hsn2, False, res)
+        _re_scenario(transceiver, n1, n2, 17, 5, True, res)
+    return res
+
+
 def _py_trx(n):
     from vlib import world
     world.install()
@@ -657,6 +748,9 @@ def run(ctx):
         for res in (ctx.pmap(_py_trx, list(range(1, 65)), chunksize=4) if py_sweep else []):
             trxseen.update(res.pop("seen_pairs"))
             ctx.merge(res)
+        # -- transceiver: SETFH repeated while hopping (no POWEROFF), and SETFH / POWEROFF / SETFH
+        for res in (ctx.pmap(_py_trx_re, [RE_PAIRS[i:i + 4] for i in range(0, len(RE_PAIRS), 4)]) if py_sweep else []):
+            ctx.merge(res)
 
         # -- order independence: FN outermost, all configurations (and non-hopping / idle settings) inside
         htot = {}
@@ -682,7 +776,8 @@ def run(ctx):
         c["distinct_n_mai_outcomes"] = len(fwseen | pyseen)
         c["python_full_N"] = list(ns)
         c["python_evaluations"] = c.get("python_reduced", 0) + c.get("python_hsn0", 0) + c.get("python_full", 0) \
-            + c.get("transceiver_lookups", 0) + c.get("python_history_calls", 0) + c["python_sequence_calls"]
+            + c.get("transceiver_lookups", 0) + c.get("python_history_calls", 0) + c["python_sequence_calls"] \
+            + c.get("transceiver_resetfh_lookups", 0)
         c["evaluations"] = c["firmware_evaluations"] + c["python_evaluations"] + c["firmware_history_hopping_calls"] \
             + c["firmware_history_nonhopping_calls"] + c["firmware_history_serving_cell_calls"]
         c["distinct_nontrivial"] = tot.get("nontrivial", 0)
@@ -693,6 +788,7 @@ def run(ctx):
         py_red_expected = sum(len(maio_set(n)) for n in range(1, 65)) * 64 * SUPER
         py_full_expected = sum(len(fm[n]) for n in ns) * 63 * len(FULL_FNS)
         c["exhaustive"] = bool(py_sweep and c["firmware_evaluations"] == fw_expected
+                               and c.get("transceiver_resetfh_scenarios", 0) == len(RE_PAIRS) * (len(RE_HSN) + 1)
                                and c.get("python_reduced", 0) == py_red_expected
                                and c.get("python_full", 0) == py_full_expected and hist_ok
                                and all(v > 0 for v in tot.get("flavours", [0])) and all(v > 0 for v in htot.get("hist_flavours", [0])))
@@ -772,6 +868,15 @@ def replay(ctx, case):
         res = _py_hist(case.get("fns") or [case["fn"]])
         for v in res["viol"]:
             ctx.violation(*v)
+        return
+    if impl == "transceiver-resetfh":
+        from vlib import world
+        world.install()
+        import transceiver
+        res = {"cov": {"transceiver_resetfh_scenarios": 0, "transceiver_resetfh_lookups": 0}, "viol": []}
+        _re_scenario(transceiver, case["n1"], case["n2"], case["hsn1"], case["hsn2"], case["poweroff"], res)
+        for v in res["viol"]:
+            ctx.violation(v[0], case, v[2])
         return
     if impl == "transceiver":
         from vlib import world
